@@ -43,7 +43,7 @@ class Ref:
         return sum(self.U[i][r] * x[r] for r in range(self.rU))
 
     def solve(self, P, b):
-        return [v for v in (O.inv_exact(np.array(P, dtype=object)) @ np.array(b, dtype=object))]
+        return [v for v in (O.inv_exact(O.arr(P)) @ O.arr(b))]
 
     def upd_y(self, X, xs, z):
         N = [sum(s.n[c] for s in X) for c in range(self.C)]
@@ -101,7 +101,7 @@ def grid():
 
 
 def eq(a, b):
-    return O.same(np.array(a, dtype=object), np.array(b, dtype=object))
+    return O.same(O.arr(a), O.arr(b))
 
 
 def corner_sessions(X, C, D, case):
@@ -110,9 +110,9 @@ def corner_sessions(X, C, D, case):
     from fractions import Fraction as Fr_
     if len(X) >= 2 and case % 3 == 1:
         s = X[0]
-        s.n = np.array([Fr_(0)] * C, dtype=object)
-        s.sum_px = np.array([[Fr_(0)] * D for _ in range(C)], dtype=object)
-        s.sum_pxx = np.array([[Fr_(0)] * D for _ in range(C)], dtype=object)
+        s.n = O.arr([Fr_(0)] * C)
+        s.sum_px = O.arr([[Fr_(0)] * D for _ in range(C)])
+        s.sum_pxx = O.arr([[Fr_(0)] * D for _ in range(C)])
         s.t = 0
     if len(X) >= 2 and case % 3 == 2:
         X[-1].n = X[-2].n.copy()
@@ -133,7 +133,7 @@ def mode_enroll_blocks(p):
                 y, xs, z, _ = Ref(m).enroll(X, iters, kind == "jfa")
                 cases += 1
                 if kind == "isv":
-                    got = np.asarray(got, dtype=object).reshape(-1)      # ISV returns the (1, C*D) block of its single class
+                    got = O.asarr(got).reshape(-1)      # ISV returns the (1, C*D) block of its single class
                 ok = eq(got, z) if kind == "isv" else (eq(got[0], y) and eq(got[1], z))
                 if not ok:
                     return {"reproduced": True, "cases": cases, "shape": dict(C=C, D=D, rU=rU, rV=rV, sessions=H), "machine": kind, "iterations": iters,
@@ -158,7 +158,7 @@ def mode_enroll_posterior(p):
             for iters in range(1, 6 if TIER == "thorough" else 5):
                 base.enroll_iterations = iters
                 got = base.enroll(X)
-                z = list(np.asarray(got, dtype=object).reshape(-1)) if kind == "isv" else list(got[1])
+                z = list(O.asarr(got).reshape(-1)) if kind == "isv" else list(got[1])
                 y = None if kind == "isv" else list(got[0])
                 # the x-block that goes with the returned (y, z) is the one computed in the last sweep:
                 # re-derive it from the previous z (reference x-update), then evaluate the posterior at the returned point
@@ -235,7 +235,7 @@ def mode_phases(p):
                     Ncls.append(N)
                     Fcls.append(F)
                     P = [[Fr(int(r == q)) + sum(N[i // D] * ref.V[i][r] * ref.V[i][q] / ref.sig[i] for i in range(n)) for q in range(rV)] for r in range(rV)]
-                    Phi = O.inv_exact(np.array(P, dtype=object))
+                    Phi = O.inv_exact(O.arr(P))
                     for c in range(C):
                         for r in range(rV):
                             for q in range(rV):
@@ -247,18 +247,18 @@ def mode_phases(p):
                 acc = m.e_step_v(X, y, sizes, n_acc, f_acc)
                 if not (eq(acc[0], A1) and eq(acc[1], A2)):
                     return {"reproduced": True, "cases": cases, "phase": "V", "what": "V-phase accumulators differ from N(Phi + y y') / Fnorm y' of the exact posterior",
-                            "observed": O.as_list(acc[0]), "expected": O.as_list(np.array(A1, dtype=object))}
+                            "observed": O.as_list(acc[0]), "expected": O.as_list(O.arr(A1))}
                 newV = m.m_step_v([acc])
                 expV = []
                 for i in range(n):
-                    inv = O.inv_exact(np.array(A1[i // D], dtype=object))
+                    inv = O.inv_exact(O.arr(A1[i // D]))
                     expV.append([sum(A2[i][s_] * inv[s_][r] for s_ in range(rV)) for r in range(rV)])
                 if not eq(newV, expV) or np.asarray(m._V).shape != (n, rV):
                     return {"reproduced": True, "cases": cases, "phase": "V", "what": "V M-step is not A2_c A1_c^-1 / shape changed",
-                            "observed": O.as_list(newV), "expected": O.as_list(np.array(expV, dtype=object))}
+                            "observed": O.as_list(newV), "expected": O.as_list(O.arr(expV))}
                 cases += 1
             # keep the rationals small for the next phases (each E/M pair is checked exactly from its own start)
-            m._V = np.array([[Fr(v).limit_denominator(50) for v in row] for row in m._V], dtype=object)
+            m._V = O.arr([[Fr(v).limit_denominator(50) for v in row] for row in m._V])
             # ---- U phase (speaker factors fixed at the V-phase point estimates)
             latent_y = m.finalize_v(X, y, sizes, n_acc, f_acc)
             ref = Ref(m)
@@ -270,7 +270,7 @@ def mode_phases(p):
                 for s in Xk:
                     xh = ref.upd_x(s, yk, [Fr(0)] * n)
                     P = [[Fr(int(r == q)) + sum(s.n[i // D] * ref.U[i][r] * ref.U[i][q] / ref.sig[i] for i in range(n)) for q in range(rU)] for r in range(rU)]
-                    Phi = O.inv_exact(np.array(P, dtype=object))
+                    Phi = O.inv_exact(O.arr(P))
                     for c in range(C):
                         for r in range(rU):
                             for q in range(rU):
@@ -282,20 +282,20 @@ def mode_phases(p):
             acc = m.e_step_u(X, y, sizes, latent_y)
             if not (eq(acc[0], A1) and eq(acc[1], A2)):
                 return {"reproduced": True, "cases": cases, "phase": "U", "what": "U-phase accumulators differ from the exact posterior moments (hand-over of y from the V phase included)",
-                        "observed": O.as_list(acc[0]), "expected": O.as_list(np.array(A1, dtype=object))}
+                        "observed": O.as_list(acc[0]), "expected": O.as_list(O.arr(A1))}
             newU = m.m_step_u([acc])
-            m_U_small = np.array([[Fr(v).limit_denominator(50) for v in row] for row in m._U], dtype=object)
+            m_U_small = O.arr([[Fr(v).limit_denominator(50) for v in row] for row in m._U])
             expU = []
             for i in range(n):
-                inv = O.inv_exact(np.array(A1[i // D], dtype=object))
+                inv = O.inv_exact(O.arr(A1[i // D]))
                 expU.append([sum(A2[i][s_] * inv[s_][r] for s_ in range(rU)) for r in range(rU)])
             if not eq(newU, expU) or np.asarray(m._U).shape != (n, rU):
                 return {"reproduced": True, "cases": cases, "phase": "U", "what": "U M-step is not A2_c A1_c^-1 / shape changed"}
             # ---- D phase
             m._U = m_U_small
-            latent_y = np.array([[Fr(v).limit_denominator(50) for v in row] for row in latent_y], dtype=object)
+            latent_y = O.arr([[Fr(v).limit_denominator(50) for v in row] for row in latent_y])
             latent_x = m.finalize_u(X, y, sizes, latent_y)
-            latent_x = [np.array([[Fr(v).limit_denominator(50) for v in row] for row in lx], dtype=object) for lx in latent_x]
+            latent_x = [O.arr([[Fr(v).limit_denominator(50) for v in row] for row in lx]) for lx in latent_x]
             ref = Ref(m)
             A1d, A2d = [Fr(0)] * n, [Fr(0)] * n
             for k in range(ncls):
@@ -756,11 +756,11 @@ def mode_affine(p):
             X = [O.mk_stats(rs, C, D) for _ in range(H)]
             a = [Fr(int(v), 3) for v in rs.choice([-6, -2, 1, 2, 5, 9], size=D)]
             b = [Fr(int(v), 2) for v in rs.randint(-5, 6, size=D)]
-            A_ = np.array([a[i % D] for i in range(C * D)], dtype=object)
+            A_ = O.arr([a[i % D] for i in range(C * D)])
             m2 = O.mk_machine(rs, kind, C, D, rU, rV, enroll_iterations=2)
             u2 = O.mk_ubm(rs, C, D)
-            u2._means = np.array([[a[d] * m.ubm.means[c][d] + b[d] for d in range(D)] for c in range(C)], dtype=object)
-            u2._variances = np.array([[a[d] ** 2 * m.ubm.variances[c][d] for d in range(D)] for c in range(C)], dtype=object)
+            u2._means = O.arr([[a[d] * m.ubm.means[c][d] + b[d] for d in range(D)] for c in range(C)])
+            u2._variances = O.arr([[a[d] ** 2 * m.ubm.variances[c][d] for d in range(D)] for c in range(C)])
             m2.ubm = u2
             m2._U = m._U * A_[:, None]
             m2._D = m._D * A_
@@ -770,14 +770,14 @@ def mode_affine(p):
                 from bob.learn.em import GMMStats
                 t = GMMStats(C, D)
                 t.n, t.t, t.log_likelihood = s.n, s.t, s.log_likelihood
-                t.sum_px = np.array([[a[d] * s.sum_px[c][d] + b[d] * s.n[c] for d in range(D)] for c in range(C)], dtype=object)
-                t.sum_pxx = np.array([[a[d] ** 2 * s.sum_pxx[c][d] + 2 * a[d] * b[d] * s.sum_px[c][d] + b[d] ** 2 * s.n[c] for d in range(D)] for c in range(C)], dtype=object)
+                t.sum_px = O.arr([[a[d] * s.sum_px[c][d] + b[d] * s.n[c] for d in range(D)] for c in range(C)])
+                t.sum_pxx = O.arr([[a[d] ** 2 * s.sum_pxx[c][d] + 2 * a[d] * b[d] * s.sum_px[c][d] + b[d] ** 2 * s.n[c] for d in range(D)] for c in range(C)])
                 X2.append(t)
             e1, e2 = m.enroll(X), m2.enroll(X2)
             cases += 1
             ok = O.same(e1, e2) if kind == "isv" else (O.same(e1[0], e2[0]) and O.same(e1[1], e2[1]))
             if kind == "isv":
-                e1, e2 = np.asarray(e1, dtype=object).reshape(-1), np.asarray(e2, dtype=object).reshape(-1)
+                e1, e2 = O.asarr(e1).reshape(-1), O.asarr(e2).reshape(-1)
             if not ok:
                 return {"reproduced": True, "cases": cases, "machine": kind, "scales": [str(v) for v in a], "shifts": [str(v) for v in b],
                         "what": "enrolled latent factors change under a per-feature affine change of the features"}
@@ -792,11 +792,5 @@ if __name__ == "__main__":
     mode, params = sys.argv[1], json.loads(sys.argv[2]) if len(sys.argv) > 2 else {}
     import dask
     dask.config.set(scheduler="synchronous")
-    try:
-        r = MODES[mode](params)
-    except Exception as e:
-        import traceback
-        tb = traceback.format_exc()
-        inside = "/bob/learn/em/" in tb
-        r = {"reproduced": bool(inside), "what": "the real code raised %s: %s" % (type(e).__name__, e), "traceback": tb[-1800:], "harness_error": not inside}
+    r = O.run_main(MODES, mode, params)
     print(json.dumps(r, default=str))
